@@ -69,8 +69,16 @@ theorem canon_mem {d : Dim} {v : Val} (hw : d.wf = true) (h : canon d = some v) 
     simp only [memDim, decide_eq_true_eq]
     exact List.mem_of_mem_head? h
 
+theorem Hp.wf_dim {h : Hp} (hw : h.wf = true) : h.dim.wf = true := by
+  simp only [Hp.wf, Bool.and_eq_true] at hw; exact hw.1
+
+theorem Hp.wf_enc {h : Hp} {cs : List Val} (hw : h.wf = true) (hd : h.dim = .cat cs) :
+    ∀ v ∈ h.enc, v ∈ cs := by
+  simp only [Hp.wf, Bool.and_eq_true, hd, List.all_eq_true, decide_eq_true_eq] at hw
+  exact hw.2
+
 theorem memAll_contains : ∀ (hps : List Hp) (x : List Val) (act : List Bool),
-    (∀ h ∈ hps, h.dim.wf = true) → memAll hps x act = true →
+    (∀ h ∈ hps, h.wf = true) → memAll hps x act = true →
     containsAll hps x = true ∧ x.length = hps.length
   | [], [], [], _, _ => by simp [containsAll]
   | h :: hs, v :: vs, a :: as, hw, hm => by
@@ -79,7 +87,7 @@ theorem memAll_contains : ∀ (hps : List Hp) (x : List Val) (act : List Bool),
     have hv : containsDim h.dim v = true := by
       cases a
       · simp only [Bool.false_eq_true, if_false, decide_eq_true_eq] at hm
-        exact memDim_contains (canon_mem (hw h List.mem_cons_self) hm.1)
+        exact memDim_contains (canon_mem (Hp.wf_dim (hw h List.mem_cons_self)) hm.1)
       · simp only [if_true] at hm
         exact memDim_contains hm.1
     simp [containsAll, hv, ih.1, ih.2]
@@ -93,7 +101,7 @@ theorem mem_accept (d : Decl) (x : Config) (hw : d.wf = true) (h : memSpace d x 
     checkXInSpace d x = true := by
   unfold memSpace at h
   simp only [Bool.and_eq_true] at h
-  have hw' : ∀ h ∈ d.hps, h.dim.wf = true := by
+  have hw' : ∀ h ∈ d.hps, h.wf = true := by
     simpa [Decl.wf, List.all_eq_true] using hw
   have := memAll_contains d.hps x _ hw' h.1
   simp [checkXInSpace, this.1, this.2]
@@ -125,9 +133,11 @@ def TokDim (ne : NumEnv) (h : Hp) (t : Slice) : Prop :=
   | _, _ => True
 
 /-- **`inverse_transform` of anything is a member of the dimension** -/
-theorem invDim_mem {ne : NumEnv} {h : Hp} {t : Slice} {v : Val} (hw : h.dim.wf = true)
+theorem invDim_mem {ne : NumEnv} {h : Hp} {t : Slice} {v : Val} (hwf : h.wf = true)
     (htok : TokDim ne h t) (hv : invDim ne h t = some v) : memDim h.dim v = true := by
-  obtain ⟨name, dim, tr, cond⟩ := h
+  have hw : h.dim.wf = true := Hp.wf_dim hwf
+  have henc : ∀ cs, h.dim = .cat cs → ∀ v ∈ h.enc, v ∈ cs := fun cs hd => Hp.wf_enc hwf hd
+  obtain ⟨name, dim, tr, cond, enc⟩ := h
   cases dim with
   | real lo hi p =>
     have hle : lo ≤ hi := by simpa [Dim.wf] using hw
@@ -145,11 +155,11 @@ theorem invDim_mem {ne : NumEnv} {h : Hp} {t : Slice} {v : Val} (hw : h.dim.wf =
     | identity => exact htok v hv
     | label =>
       rcases t with _ | ⟨w, _ | ⟨w2, t⟩⟩ <;> simp only [invDim] at hv <;> (try cases hv)
-      exact choiceAt_mem hv
+      exact henc cs rfl v (choiceAt_mem hv)
     | normalize =>
       rcases t with _ | ⟨w, _ | ⟨w2, t⟩⟩ <;> simp only [invDim] at hv <;> (try cases hv)
       split at hv
-      · exact choiceAt_mem hv
+      · exact henc cs rfl v (choiceAt_mem hv)
       · cases hv
     | onehot =>
       simp only [invDim] at hv
@@ -174,7 +184,7 @@ def TokAll (ne : NumEnv) : List Hp → List Slice → Prop
   | _, _ => True
 
 theorem invAll_mem {ne : NumEnv} : ∀ {hps : List Hp} {ts : List Slice} {x : Config},
-    (∀ h ∈ hps, h.dim.wf = true) → TokAll ne hps ts → invAll ne hps ts = some x →
+    (∀ h ∈ hps, h.wf = true) → TokAll ne hps ts → invAll ne hps ts = some x →
     dimsAll hps x = true
   | [], [], x, _, _, h => by simp [invAll] at h; subst h; rfl
   | h :: hs, t :: ts, x, hw, htok, hx => by
@@ -228,12 +238,21 @@ def almostAll : List Hp → List Val → Bool
   | h :: hs, v :: vs => almost h.dim v && almostAll hs vs
   | _, _ => false
 
+theorem dimsAll_almostAll : ∀ {hps : List Hp} {x : List Val}, dimsAll hps x = true → almostAll hps x = true
+  | [], [], _ => rfl
+  | h :: hs, v :: vs, hd => by
+    simp only [dimsAll, Bool.and_eq_true] at hd
+    simp only [almostAll, Bool.and_eq_true, almost, Bool.or_eq_true]
+    exact ⟨Or.inl hd.1, dimsAll_almostAll hd.2⟩
+  | [], _ :: _, h => by simp [dimsAll] at h
+  | _ :: _, [], h => by simp [dimsAll] at h
+
 theorem canonAll_almost {ne : NumEnv} : ∀ {hps : List Hp} {x : List Val} {act : List Bool} {y : Config},
-    (∀ h ∈ hps, h.dim.wf = true) → dimsAll hps x = true → canonAll ne hps x act = some y →
+    (∀ h ∈ hps, h.wf = true) → almostAll hps x = true → canonAll ne hps x act = some y →
     almostAll hps y = true
   | [], [], [], y, _, _, h => by simp [canonAll] at h; subst h; rfl
   | h :: hs, v :: vs, a :: as, y, hw, hd, hy => by
-    simp only [dimsAll, Bool.and_eq_true] at hd
+    simp only [almostAll, Bool.and_eq_true] at hd
     simp only [canonAll] at hy
     split at hy
     · rename_i w ws hw' hws
@@ -242,14 +261,14 @@ theorem canonAll_almost {ne : NumEnv} : ∀ {hps : List Hp} {x : List Val} {act 
       refine ⟨?_, canonAll_almost (fun h' hh => hw h' (List.mem_cons_of_mem _ hh)) hd.2 hws⟩
       cases a
       · simp only [Bool.false_eq_true, if_false] at hw'
-        simp [almost, canon_mem (hw h List.mem_cons_self) hw']
+        simp [almost, canon_mem (Hp.wf_dim (hw h List.mem_cons_self)) hw']
       · simp only [if_true] at hw'
         split at hw'
         · rename_i lo hi p q hdim
           cases hw'
           simp [almost, hdim]
         · cases hw'
-          simp [almost, hd.1]
+          exact hd.1
     · cases hy
   | [], [], _ :: _, _, _, _, h => by simp [canonAll] at h
   | [], _ :: _, _, _, _, _, h => by simp [canonAll] at h
@@ -284,25 +303,31 @@ theorem legalAll_mem : ∀ {hps : List Hp} {y : List Val} {act : List Bool},
 
 theorem deactivate_mem {ne : NumEnv} {d : Decl} {x y : Config} (hw : d.wf = true)
     (hx : dimsAll d.hps x = true) (h : deactivate ne d x = some y) : memSpace d y = true := by
-  have hw' : ∀ h ∈ d.hps, h.dim.wf = true := by
+  have hw' : ∀ h ∈ d.hps, h.wf = true := by
     simpa [Decl.wf, List.all_eq_true] using hw
   unfold deactivate at h
   split at h
   · rename_i hu
     cases h
     exact memSpace_unconstrained hu hx
-  · split at h
+  · simp only at h
+    split at h
     · cases h
-    · rename_i y' hy'
-      simp only at h
+    · rename_i y1 hy1
       split at h
-      · rename_i hv
-        cases h
-        simp only [Bool.and_eq_true] at hv
-        unfold memSpace
-        simp only [Bool.and_eq_true]
-        exact ⟨legalAll_mem (canonAll_almost hw' hx hy') hv.1, hv.2⟩
       · cases h
+      · split at h
+        · cases h
+        · rename_i y' hy'
+          split at h
+          · rename_i hv
+            cases h
+            simp only [Bool.and_eq_true] at hv
+            unfold memSpace
+            simp only [Bool.and_eq_true]
+            have ha1 := canonAll_almost hw' (dimsAll_almostAll hx) hy1
+            exact ⟨legalAll_mem (canonAll_almost hw' ha1 hy') hv.1, hv.2⟩
+          · cases h
 
 /-- admissible transformed row: the numeric-ordinal slices (after the clip) hold choices -/
 def Tok (ne : NumEnv) (d : Decl) (t : List Slice) : Prop :=
@@ -312,7 +337,7 @@ def Tok (ne : NumEnv) (d : Decl) (t : List Slice) : Prop :=
 declared space, whatever the optimiser output `t` was** (or raises) -/
 theorem fin_mem {ne : NumEnv} {d : Decl} {t : List Slice} {y : Config} (hw : d.wf = true)
     (htok : Tok ne d t) (h : fin ne d t = some y) : memSpace d y = true := by
-  have hw' : ∀ h ∈ d.hps, h.dim.wf = true := by
+  have hw' : ∀ h ∈ d.hps, h.wf = true := by
     simpa [Decl.wf, List.all_eq_true] using hw
   unfold fin at h
   simp only at h
@@ -373,7 +398,7 @@ def Hp.wfTr (h : Hp) : Bool :=
 
 theorem trDim_tok {ne : NumEnv} {h : Hp} {v : Val} (hwt : h.wfTr = true) (hm : memDim h.dim v = true) :
     TokDim ne h (trDim ne h v) ∧ TokDim ne h (clipSlice (tBounds ne h) (trDim ne h v)) := by
-  obtain ⟨name, dim, tr, cond⟩ := h
+  obtain ⟨name, dim, tr, cond, enc⟩ := h
   cases dim with
   | real lo hi p => cases tr <;> exact ⟨trivial, trivial⟩
   | int lo hi p => cases tr <;> exact ⟨trivial, trivial⟩
@@ -388,13 +413,13 @@ theorem trDim_tok {ne : NumEnv} {h : Hp} {v : Val} (hwt : h.wfTr = true) (hm : m
       -- the value is numeric: its slice is `[q]`, the clip leaves it alone, and it comes back
       cases hq : v.toRat? with
       | none =>
-        have e : trDim ne ⟨name, .cat cs, .identity, cond⟩ v = [] := by simp [trDim, hq]
+        have e : trDim ne ⟨name, .cat cs, .identity, cond, enc⟩ v = [] := by simp [trDim, hq]
         rw [e]
         constructor <;> (intro w hw; simp [invDim, clipSlice] at hw)
       | some q =>
-        have e : trDim ne ⟨name, .cat cs, .identity, cond⟩ v = [q] := by simp [trDim, hq]
+        have e : trDim ne ⟨name, .cat cs, .identity, cond, enc⟩ v = [q] := by simp [trDim, hq]
         have hqmem : q ∈ cs.filterMap Val.toRat? := List.mem_filterMap.2 ⟨v, hm, hq⟩
-        have eclip : clipSlice (tBounds ne ⟨name, .cat cs, .identity, cond⟩) [q] = [q] := by
+        have eclip : clipSlice (tBounds ne ⟨name, .cat cs, .identity, cond, enc⟩) [q] = [q] := by
           simp only [tBounds]
           split
           · rename_i hnil; rw [hnil] at hqmem; cases hqmem
@@ -402,7 +427,7 @@ theorem trDim_tok {ne : NumEnv} {h : Hp} {v : Val} (hwt : h.wfTr = true) (hm : m
             rw [hcons] at hqmem
             simp only [clipSlice]
             rw [clip_id (foldl_min_le qs q0 q hqmem) (le_foldl_max qs q0 q hqmem)]
-        have back : ∀ w, invDim ne ⟨name, .cat cs, .identity, cond⟩ [q] = some w → w ∈ cs := by
+        have back : ∀ w, invDim ne ⟨name, .cat cs, .identity, cond, enc⟩ [q] = some w → w ∈ cs := by
           intro w hw
           simp only [invDim] at hw
           rcases hwt with hall | hall
@@ -434,14 +459,14 @@ theorem trDim_tok {ne : NumEnv} {h : Hp} {v : Val} (hwt : h.wfTr = true) (hm : m
         exact ⟨back, back⟩
 
 theorem memAll_dimsAll : ∀ {hps : List Hp} {x : List Val} {act : List Bool},
-    (∀ h ∈ hps, h.dim.wf = true) → memAll hps x act = true → dimsAll hps x = true
+    (∀ h ∈ hps, h.wf = true) → memAll hps x act = true → dimsAll hps x = true
   | [], [], [], _, _ => rfl
   | h :: hs, v :: vs, a :: as, hw, hm => by
     simp only [memAll, Bool.and_eq_true] at hm
     simp only [dimsAll, Bool.and_eq_true]
     refine ⟨?_, memAll_dimsAll (fun h' hh => hw h' (List.mem_cons_of_mem _ hh)) hm.2⟩
     cases a
-    · exact canon_mem (hw h List.mem_cons_self) (by simpa using hm.1)
+    · exact canon_mem (Hp.wf_dim (hw h List.mem_cons_self)) (by simpa using hm.1)
     · simpa using hm.1
   | [], [], _ :: _, _, h => by simp [memAll] at h
   | [], _ :: _, _, _, h => by simp [memAll] at h
@@ -468,7 +493,7 @@ def Decl.wfAll (d : Decl) : Bool := d.wf && d.hps.all (fun h => h.wfTr)
 theorem tr_tok {ne : NumEnv} {d : Decl} {c : Config} (hw : d.wfAll = true)
     (hc : memSpace d c = true) : Tok ne d (tr ne d c) := by
   simp only [Decl.wfAll, Bool.and_eq_true] at hw
-  have hw1 : ∀ h ∈ d.hps, h.dim.wf = true := by simpa [Decl.wf, List.all_eq_true] using hw.1
+  have hw1 : ∀ h ∈ d.hps, h.wf = true := by simpa [Decl.wf, List.all_eq_true] using hw.1
   have hw2 : ∀ h ∈ d.hps, h.wfTr = true := by simpa [List.all_eq_true] using hw.2
   unfold memSpace at hc
   simp only [Bool.and_eq_true] at hc
@@ -526,10 +551,10 @@ anything else `Normalize` accepts) is a member of an unconstrained declared spac
 theorem design_mem {ne : NumEnv} {d : Decl} {ts : List Slice} {x : Config} (hw : d.wf = true)
     (hu : d.unconstrained = true) (h : invAll ne (normalizedHps d.hps) ts = some x) :
     memSpace d x = true := by
-  have hw' : ∀ h ∈ normalizedHps d.hps, h.dim.wf = true := by
+  have hw' : ∀ h ∈ normalizedHps d.hps, h.wf = true := by
     intro h hh
     obtain ⟨h0, hh0, rfl⟩ := List.mem_map.1 hh
-    have : ∀ h ∈ d.hps, h.dim.wf = true := by simpa [Decl.wf, List.all_eq_true] using hw
+    have : ∀ h ∈ d.hps, h.wf = true := by simpa [Decl.wf, List.all_eq_true] using hw
     exact this h0 hh0
   have htok : TokAll ne (normalizedHps d.hps) ts := by
     apply tokAll_of_noIdentity
